@@ -84,7 +84,6 @@ class Fragment(AbstractApplication):
         # take the payload data to fragment it
         pyld_blk = ctr.block_num(Bundle.BLOCK_NUM_PAYLOAD)
         payload_data = pyld_blk.getfieldval('btsd')
-        pyld_blk.delfieldval('btsd')
         payload_size = len(payload_data)
         LOGGER.info('Payload data size %d', payload_size)
         # maximum size of each fragment field
@@ -105,9 +104,15 @@ class Fragment(AbstractApplication):
             fctr.bundle.primary.total_app_data_len = payload_size
 
             for blk in ctr.bundle.blocks:
-                if (frag_offset == 0
-                    or blk.block_flags & CanonicalBlock.Flag.REPLICATE_IN_FRAGMENT
-                        or blk.block_num == Bundle.BLOCK_NUM_PAYLOAD):
+                if blk.block_num == Bundle.BLOCK_NUM_PAYLOAD:
+                    # the fragment payload starts empty, without the
+                    # original data either as field or as decoded layer
+                    fblk = blk.copy()
+                    fblk.remove_payload()
+                    fblk.delfieldval('btsd')
+                    fctr.bundle.blocks.append(fblk)
+                elif (frag_offset == 0
+                      or blk.block_flags & CanonicalBlock.Flag.REPLICATE_IN_FRAGMENT):
                     fctr.bundle.blocks.append(blk.copy())
             # ensure full size (with zero-size payload)
             fctr.reload()
